@@ -235,6 +235,9 @@ func (d *Decoder) readTagObject() (interface{}, error) {
 	clsD := d.clsDefList[idx]
 	typ, ok := d.typMap[clsD.FullClassName]
 	if !ok {
+		if d.skipDepth > 0 {
+			return d.skipObject(clsD)
+		}
 		return nil, newCodecError("readTagObject", "undefined type: %s", clsD.FullClassName)
 	}
 	return EnsureInterface(d.readObject(typ, clsD))
@@ -249,6 +252,9 @@ func (d *Decoder) ReadLenTagObject(tag byte) (interface{}, error) {
 	clsD := d.clsDefList[i]
 	typ, ok := d.typMap[clsD.FullClassName]
 	if !ok {
+		if d.skipDepth > 0 {
+			return d.skipObject(clsD)
+		}
 		return nil, newCodecError("ReadLenTagObject", "undefined type: %s", clsD.FullClassName)
 	}
 	return EnsureInterface(d.readObject(typ, clsD))
@@ -267,6 +273,18 @@ func (d *Decoder) readObjectDef() (interface{}, error) {
 	// value ::= class-def value: the definition may be followed by any value (another definition,
 	// a list of instances, ...), not only by an instance of the class just defined
 	return d.readData()
+}
+
+// skipObject consumes an instance of a class that has no Go type, inside the value of an unknown field.
+// The instance still takes its place in the reference list so that later ordinals stay aligned.
+func (d *Decoder) skipObject(cls ClassDef) (interface{}, error) {
+	d.refList = append(d.refList, _zeroValue)
+	for i := 0; i < len(cls.FieldName); i++ {
+		if _, err := d.readData(); err != nil {
+			return nil, newCodecError("skipObject", "failed to skip field '%s'", cls.FieldName[i], err)
+		}
+	}
+	return nil, nil
 }
 
 // var readObjectIndex = 0
@@ -291,7 +309,10 @@ func (d *Decoder) readObject(typ reflect.Type, cls ClassDef) (interface{}, error
 			hlog.Debugf("%s is not found, will skip type ->p %v", fldName, typ)
 			// the value of the unknown field is still on the wire: read and drop it, or every
 			// later field would be decoded from the wrong bytes
-			if _, err := d.readData(); err != nil {
+			d.skipDepth++
+			_, err = d.readData()
+			d.skipDepth--
+			if err != nil {
 				return nil, newCodecError("readObject", "failed to skip unknown field '%s'", fldName, err)
 			}
 			continue
